@@ -21,4 +21,4 @@ for pkg in os.listdir(d):
 json.dump({"Replace": rep}, open(out, "w"))
 PY
 cd "$REPO"
-go test -vet=off -count=1 -v -run 'TestKF_' -overlay "$T/ov.json" ./seat_manager/ . 2>&1 | grep -v "DEBUG\|^->" | grep -E "^(=== RUN|--- |\s+kf_|ok|FAIL|PASS)|reproduced|no longer"
+go test -vet=off -count=1 -v -run 'TestKF_' -overlay "$T/ov.json" ./seat_manager/ ./open_game_manager/ . 2>&1 | grep -v "DEBUG\|^->" | grep -E "^(=== RUN|--- |\s+kf_|ok|FAIL|PASS)|reproduced|no longer"
